@@ -8,7 +8,8 @@ use crate::common::*;
   help_message(consts::HELP_MESSAGE),
   version_message(consts::VERSION_MESSAGE),
   global_setting(AppSettings::ColoredHelp),
-  global_setting(AppSettings::ColorAuto)
+  global_setting(AppSettings::ColorAuto),
+  global_setting(AppSettings::StrictUtf8)
 )]
 pub(crate) struct Arguments {
   #[structopt(flatten)]
